@@ -64,13 +64,33 @@ def exporters():
         return repr((len(d.get_records()), len(list(d.get_records(M.ProvElement))), len(d.records),
                      [str(r) for r in d.get_records()][:0], [r.args for r in d.get_records()][:0]))
 
-    return {"json": ser("json"), "json-indent": ser("json", indent=2, sort_keys=True), "xml": ser("xml"),
+    def reuse(fmt, **kw):
+        """one serializer object used for two exports in a row (as an application holding a serializer does): the second
+        text must be the first, and both what document.serialize returns"""
+        def f(d):
+            import io
+            import prov.serializers
+            s_ = prov.serializers.get(fmt)(d)
+            outs = []
+            for _ in range(2):
+                buf = io.StringIO()
+                s_.serialize(buf, **kw)
+                outs.append(buf.getvalue())
+            if outs[0] != outs[1]:
+                return "SECOND EXPORT OF ONE SERIALIZER DIFFERS: " + outs[1][:300]
+            return outs[0]
+        return f
+
+    return {"json-reuse": reuse("json"), "xml-reuse": reuse("xml"), "provn-reuse": reuse("provn"),
+            "json": ser("json"), "json-indent": ser("json", indent=2, sort_keys=True), "xml": ser("xml"),
             "xml-force": ser("xml", force_types=True), "provn": ser("provn"), "get_provn": lambda d: d.get_provn(),
             "rdf": rdf, "dot": dot, "dot-labels": dot2, "graph": graph, "compare": compare, "hash": hashing,
             "unified": unify, "flattened": flatten, "listing": listing}
 
 
-TEXT_STABLE = ("json", "json-indent", "xml", "xml-force", "provn", "get_provn", "dot", "dot-labels", "unified", "flattened")
+TEXT_STABLE = ("json", "json-indent", "xml", "xml-force", "provn", "get_provn", "dot", "dot-labels", "unified", "flattened",
+               "json-reuse", "xml-reuse", "provn-reuse")
+SAME_TEXT = {"json-reuse": "json", "xml-reuse": "xml", "provn-reuse": "provn"}
 
 
 def rdf_iso(a, b):
@@ -112,6 +132,11 @@ class C13Oracle(worldprop.Oracle):
                         self.fail(idx, "the same export called twice returned different text", exporter=name, doc=di)
                 else:
                     first[name] = out
+                if isinstance(out, str) and out.startswith("SECOND EXPORT OF ONE SERIALIZER DIFFERS"):
+                    self.fail(idx, "one serializer object exporting twice returned different text", exporter=name, doc=di)
+            for name, base in SAME_TEXT.items():
+                if name in first and base in first and first[name] != first[base] and not str(first[base]).startswith("EXC"):
+                    self.fail(idx, "a serializer object and document.serialize return different text", exporter=name, doc=di)
         self.texts = None
 
 
@@ -189,7 +214,7 @@ def run(tier, seed, log, model_runs=True, enlarged=False):
                         ops_range_quick=(6, 18), ops_range_thorough=(8, 34),
                         rule_text="API programs with export calls (ExportJson/LoadJson, ExportProvn, ToGraph, Eq, EqRec, unified, "
                                   "flattened) compared against the model after every call; oracle: on every document of the final "
-                                  "world 15 exporters (PROV-JSON with two option sets, PROV-XML with and without force_types, "
+                                  "world 18 exporters (PROV-JSON with two option sets, one serializer object exporting twice for PROV-JSON / PROV-XML / PROV-N, PROV-XML with and without force_types, "
                                   "PROV-N, RDF, DOT with two option sets, graph, ==/!=, hash, unified, flattened, listing) are "
                                   "called in a program-dependent order with repetitions; after every call the strict content, "
                                   "record order, registered namespaces and default namespace of every document must be "
